@@ -30,7 +30,9 @@ def shapes(tier, ref=False):
     o = []
     for ct in range(7):
         # one page per batch, nullable, 4 rows in 2 batches (byte arrays: 3 rows — every length 0..2 forks)
-        o.append(shape(ct, 1, 2 if ct == 5 else 4, 1 if ct == 5 else 2, 1, 0, ref=ref))
+        # quick: FLOAT / DOUBLE with 3 rows (the min/max statistics comparisons fork per ordering; 4 rows take > 10 min with the reference reader)
+        rows = 2 if ct == 5 else (3 if q and ct in (3, 4) else 4)
+        o.append(shape(ct, 1, rows, 1 if ct == 5 else 2, 1, 0, ref=ref))
         if not q:
             o.append(shape(ct, 0, 4, 2, 1, 0, ref=ref))
             o.append(shape(ct, 1, 5, 2, 1, 2, ref=ref))
